@@ -10,6 +10,7 @@ Helper lemmas: `P2/Lemmas/C21.lean`.
 -/
 import P2.Model.SyncSched
 import P2.Lemmas.C21
+import P2.Lemmas.C21Core
 
 namespace P2.C21
 open P2.Sched
@@ -140,6 +141,58 @@ theorem c21_orig_violates_cap1 :
        ⟨true, .enq⟩, ⟨true, .flush⟩, ⟨true, .enq⟩, ⟨false, .enq⟩, ⟨false, .flush⟩, ⟨false, .enq⟩] = some st ∧
       st = { a := ⟨4, true, 2⟩, b := ⟨4, true, 2⟩ } ∧ stuck cfg st = true ∧ finished cfg st = false := by
   refine ⟨{ a := ⟨4, true, 2⟩, b := ⟨4, true, 2⟩ }, ?_, rfl, ?_, ?_⟩ <;> decide
+
+/-- **`c21_partial`, necessary direction (pinned design)**: with capacity `c ≥ 1`, when *both*
+    sides have more Sync-phase messages than the buffer holds there is a schedule that ends with
+    both peers blocked in `send` inside a batch: handshake, then each side enqueues `c + 1`
+    messages without the other one reading. -/
+theorem c21_partial_converse (cfg : Cfg) (horig : cfg.alt = false) (hc : 1 ≤ cfg.c)
+    (ha : cfg.c < syncTotal cfg.ba) (hb : cfg.c < syncTotal cfg.bb) : ¬ DeadlockFree cfg := by
+  intro hfree
+  let stF : St := { a := ⟨2 + 0 + cfg.c + 1, true, 2⟩, b := ⟨2 + 0 + cfg.c + 1, true, 2⟩ }
+  have hrun : runSched cfg init
+      (handshake ++ (pump true cfg.c ++ ([⟨true, .enq⟩] ++ (pump false cfg.c ++ [⟨false, .enq⟩])))) = some stF := by
+    rw [runSched_append, handshake_run cfg horig hc]
+    simp only [Option.bind_some]
+    rw [runSched_append, pumpA cfg ⟨2, false, 2⟩ rfl cfg.c 0 (by omega) (by simp [total]; omega)]
+    simp only [Option.bind_some]
+    have h1 : stepFn cfg { a := ⟨2 + 0 + cfg.c, false, 2⟩, b := ⟨2, false, 2⟩ } ⟨true, .enq⟩ =
+        some { a := ⟨2 + 0 + cfg.c + 1, true, 2⟩, b := ⟨2, false, 2⟩ } := by
+      have : 2 + 0 + cfg.c < total cfg.ba := by simp [total]; omega
+      simp [stepFn, stepPeer, canEnq, this]
+    rw [runSched_append]
+    simp only [runSched, h1, Option.bind_some]
+    rw [runSched_append]
+    have e0 : (2 : Nat) = 2 + 0 := rfl
+    have hp := pumpB cfg ⟨2 + 0 + cfg.c + 1, true, 2⟩ rfl cfg.c 0 (by omega) (by simp [total]; omega)
+    simp only [Nat.add_zero] at hp ⊢
+    rw [hp]
+    simp only [Option.bind_some]
+    have h2 : stepFn cfg { a := ⟨2 + cfg.c + 1, true, 2⟩, b := ⟨2 + cfg.c, false, 2⟩ } ⟨false, .enq⟩ =
+        some { a := ⟨2 + cfg.c + 1, true, 2⟩, b := ⟨2 + cfg.c + 1, true, 2⟩ } := by
+      have : 2 + cfg.c < total cfg.bb := by simp [total]; omega
+      simp [stepFn, stepPeer, canEnq, this]
+    simp only [runSched, h2, stF, Nat.add_zero]
+  have hstuck : stuck cfg stF = true := by
+    rw [stuck_iff]
+    have hf : ¬(2 + 0 + cfg.c + 1 - 2 ≤ cfg.c) := by omega
+    simp [stF, canEnq, canFlush, canRecv, horig, hf]
+  have hfin := hfree stF ⟨_, hrun⟩ hstuck
+  simp [finished, peerDone, stF] at hfin
+
+/-- **`c21_partial`, exact characterisation for the pinned design and capacity `c ≥ 1`**: every
+    maximal schedule ends in `(done, done)` iff the Sync-phase messages of at least one side fit
+    into the buffer.  (Capacity 0 never terminates: `c21_orig_not_deadlockfree_cap0`.) -/
+theorem c21_partial_exact (cfg : Cfg) (horig : cfg.alt = false) (hc : 1 ≤ cfg.c) :
+    DeadlockFree cfg ↔ (syncTotal cfg.ba ≤ cfg.c ∨ syncTotal cfg.bb ≤ cfg.c) := by
+  constructor
+  · intro h
+    by_cases h1 : syncTotal cfg.ba ≤ cfg.c
+    · exact Or.inl h1
+    · by_cases h2 : syncTotal cfg.bb ≤ cfg.c
+      · exact Or.inr h2
+      · exact absurd h (c21_partial_converse cfg horig hc (by omega) (by omega))
+  · exact c21_partial cfg horig hc
 
 theorem c21_statement_orig_false : ¬ C21Statement false :=
   fun h => c21_orig_not_deadlockfree_cap0 [] [] (h 0 [] [])
